@@ -1,12 +1,60 @@
-(* C07 - Deserialization is total and obeys implicit truncation / zero extension. Statements only. *)
+(* C07 - Deserialization is total and obeys implicit truncation / zero extension. Statements only.
+
+   Totality: [deserialize : ty -> list Z -> bool -> res val] is a total function of the model whose errors are
+   EArrayLength, EUnionTag, EDelimHeader (SerDesError), EUtf8 / EValue (ValueError); that the implementation raises
+   nothing else is established by the correspondence on hostile inputs (every case's exception class is compared).
+   [rbit r j]: the bit reader r sees at absolute position j (the data bit when inside the data and below the limit, else 0). *)
 From Coq Require Import ZArith List Bool.
-From PV Require Import BLS.Model Layout.Types Serdes.Model Serdes.ProofsReject.
+From PV Require Import BLS.Model Layout.Types Serdes.Model Serdes.Bits Serdes.ReaderProofs Serdes.Spec Serdes.DeserProofs
+  Serdes.Roundtrip Serdes.DeserSim Serdes.ZeroExt Serdes.ProofsReject Serdes.DecodedValid.
 Import ListNotations.
 Open Scope Z_scope.
 
-(* Totality: [deserialize : ty -> list Z -> bool -> res val] is a total function whose errors are EArrayLength, EUnionTag,
-   EDelimHeader (SerDesError), EUtf8 / EValue (ValueError); that the implementation raises nothing else is established by
-   the correspondence on hostile inputs. *)
+(* the reader (both paths) returns the zero-extended, limit-clipped slice: out-of-bounds and beyond-limit bits read as 0 *)
+Theorem C07_reader_zero_extends : forall r n, bytes_ok (rdata r) -> 0 <= n -> 0 <= roff r ->
+  snd (read_bits r n) = r_adv r n /\ 0 <= fst (read_bits r n) < 2 ^ n /\
+  forall k, 0 <= k < n -> Z.testbit (fst (read_bits r n)) k = rbit r (roff r + k).
+Proof. exact read_bits_spec. Qed.
+Print Assumptions C07_reader_zero_extends.
+
+(* whatever deserialize returns is valid for the type, canonical, and a fixed point of serialize -> deserialize.
+   PARTIAL: proved for types without float fields and with extents below 2^35 bits ([plain]).  Missing for float fields:
+   the arithmetic fact  fwiden w (fcast c w (fwiden w bits)) = fwiden w bits  (re-encoding a decoded float is exact); the
+   model's float functions are compared bit-exactly with struct.pack/unpack on every generated case and the fixed point is
+   checked on the implementation for every decoded value (harness/props/c07.py), but the Coq proof of that fact is not done. *)
+Theorem C07_valid_fixpoint_partial : forall t b hdr v,
+  wft t = true -> serializable t = true -> is_composite t = true -> hdr_ok t hdr = true -> plain t = true -> bytes_ok b ->
+  deserialize t b hdr = Ok v ->
+  validb t v = true /\ canon t v = v /\ exists bs, serialize t v hdr = Ok bs /\ deserialize t bs hdr = Ok v.
+Proof. exact valid_fixpoint. Qed.
+Print Assumptions C07_valid_fixpoint_partial.
+
+(* implicit truncation, the form users rely on: bytes after a complete representation are ignored *)
+Theorem C07_truncation_ser : forall t v hdr bytes junk,
+  wft t = true -> serializable t = true -> is_composite t = true -> hdr_ok t hdr = true -> validb t v = true ->
+  bytes_ok junk -> serialize t v hdr = Ok bytes -> deserialize t (bytes ++ junk) hdr = Ok (canon t v).
+Proof. exact roundtrip_junk. Qed.
+Print Assumptions C07_truncation_ser.
+
+(* implicit zero extension: b and b followed by zero bytes decode alike (a successful result never changes) *)
+Theorem C07_zero_ext : forall t b n hdr v, wft t = true -> bytes_ok b ->
+  deserialize t b hdr = Ok v -> deserialize t (b ++ zeros n) hdr = Ok v.
+Proof. exact zero_ext. Qed.
+Print Assumptions C07_zero_ext.
+
+(* more generally: a reader that sees the same bits from its position on and has at least as much data left decodes alike *)
+Theorem C07_same_bits_same_value : forall t, wft t = true -> forall r1 r2 v r1', RS r1 r2 -> deser t r1 = Ok (v, r1') ->
+  exists r2', deser t r2 = Ok (v, r2') /\ RS r1' r2'.
+Proof. exact deser_sim. Qed.
+Print Assumptions C07_same_bits_same_value.
+
+(* no dependence on data outside a bounded sub-reader's window *)
+Theorem C07_confinement : forall t r1 r2 n v r1', wft t = true -> rok r1 -> rok r2 -> roff r1 = roff r2 -> 0 <= n ->
+  (forall j, roff r1 <= j < roff r1 + n -> getbit (rdata r1) j = getbit (rdata r2) j) ->
+  deser t (fst (bounded_subreader r1 n)) = Ok (v, r1') ->
+  exists r2', deser t (fst (bounded_subreader r2 n)) = Ok (v, r2').
+Proof. exact confinement. Qed.
+Print Assumptions C07_confinement.
 
 (* lengths, tags and headers above the limit are rejected, never clamped; accepted ones are within the limit *)
 Theorem C07_rejects_array : forall e n r, n < fst (read_bits r (prefix_width (align e) n)) -> deser (TVar e n) r = Err EArrayLength.
@@ -38,5 +86,8 @@ Print Assumptions C07_accepts_header.
 
 Example C07_nonvacuous :
   deserialize (TStruct [] [(Some [1], TVar (TPrim PByte) 3)]) [4; 1; 2; 3; 4] false = Err EArrayLength /\
-  deserialize (TStruct [] [(Some [1], TVar (TPrim PByte) 3)]) [3; 1; 2] false = Ok (VStruct [VList [VInt 1; VInt 2; VInt 0]]).
-Proof. vm_compute. auto. Qed.
+  deserialize (TStruct [] [(Some [1], TVar (TPrim PByte) 3)]) [3; 1; 2] false = Ok (VStruct [VList [VInt 1; VInt 2; VInt 0]]) /\
+  deserialize (TStruct [] [(Some [1], TVar (TPrim PByte) 3)]) ([3; 1; 2] ++ zeros 5) false = Ok (VStruct [VList [VInt 1; VInt 2; VInt 0]]) /\
+  deserialize (TStruct [] [(Some [1], TDelim (TStruct [] [(Some [2], TPrim (PUInt 8 Sat))]) 8)]) [2; 0; 0; 0; 7] false = Err EDelimHeader /\
+  deserialize (TStruct [] [(Some [1], TDelim (TStruct [] [(Some [2], TPrim (PUInt 8 Sat))]) 8)]) ([2; 0; 0; 0; 7] ++ zeros 1) false = Ok (VStruct [VStruct [VInt 7]]).
+Proof. vm_compute. repeat split; reflexivity. Qed.
